@@ -25,6 +25,9 @@ Qed.
 Lemma with_oob_wf : forall s ob, wf s -> wf (with_oob s ob).
 Proof. intros s ob [? ?]. split; auto. Qed.
 
+Lemma rebuild_tcfg : forall s, tcfg (rebuild s) = tcfg s.
+Proof. intros. unfold rebuild. destruct (rebuild_loop _ _ _ _ _ _) as [[? ?] ?]. reflexivity. Qed.
+
 Lemma rebuild_then_search : forall s h r ob, wf s -> search_tab (rebuild s) h = (r, ob) ->
   wf (with_oob (rebuild s) ob) /\ oob (with_oob (rebuild s) ob) = oob s /\ abs (with_oob (rebuild s) ob) = abs s /\
   match r with
@@ -38,7 +41,7 @@ Proof.
   { destruct Hwf, RF as [? _]. split; auto. rewrite R1, R2. auto. }
   apply fresh_search in H; auto. destruct H as [-> H].
   rewrite R1, R2 in H. repeat split; auto; try (apply Hwf3).
-  unfold abs; cbn. now rewrite R1, R2, R3, R4, R5.
+  unfold abs; cbn. now rewrite rebuild_tcfg, R1, R2, R3, R4, R5.
 Qed.
 
 (* reb_simulation_particle_by_hash: correct for ANY lookup table (any staleness), duplicates and zero
